@@ -208,6 +208,9 @@ def parse_export(out_json, wanted):
         classify(hr, r.get('checks', []))
         s = r.get('status', '')
         hr.status = 'success' if s == 'Success' else ('failure' if s == 'Failure' else s.lower())
+        if hr.checks_total == 0:
+            # CBMC produced no per-check results: timeout, out-of-memory or crash — never a verdict
+            hr.status = 'noresult'
         res[name] = hr
     return res, d
 
